@@ -126,6 +126,7 @@ func init() {
 	     github.com/innovationb1ue/RedisGO/logger.SetUp
 	     log.Println log.Printf log.Print fmt.Println fmt.Printf fmt.Print
 	     (*log.Logger).Println (*log.Logger).Printf (*log.Logger).Print (*log.Logger).SetPrefix (*log.Logger).SetOutput
+	     (*log.Logger).Output (*log.Logger).output (*log.Logger).SetFlags
 	     runtime.Gosched runtime.GC runtime.KeepAlive runtime.SetFinalizer`, noop)
 	reg(`log.Fatal log.Fatalf log.Fatalln (*log.Logger).Fatal (*log.Logger).Fatalf (*log.Logger).Fatalln os.Exit`,
 		func(in *Interp, th *Thread, fn *ssa.Function, args []Value) (Value, bool) {
